@@ -90,7 +90,7 @@ def run(ctx, crate):
     obs = []
     sc = scope(crate)
     gens = [b for b in sc.values() if is_generator(b) and O.loops_of_body(b)]
-    walks = {w.path: w for w in dirwalk.walks(crate) if w.ok}
+    walks = {w.body.path: w for w in dirwalk.walks(crate) if w.ok}  # keyed by the body whose loops are examined (the private walker in accumulator style)
     gen_sorted_inner = {}
     for b in sc.values():
         if b.derived:
